@@ -20,11 +20,11 @@ Definition sp81 : sprogram :=
   {| sp_prog := p81;
      sp_shadows := [ {| sh_fn := 2; sh_body := SAssert (eqz (call0 2) 10); sh_skip := false |};
                      {| sh_fn := 3; sh_body := SSeq (SPrint true (call0 3)) (SAssert (eqz (call0 3) 10)); sh_skip := false |};
-                     {| sh_fn := 0; sh_body := SAssert (EBool true); sh_skip := false |} ] |}.
+                     {| sh_fn := 0; sh_body := SAssert (EBool true); sh_skip := false |} ] ; sp_imported := [] |}.
 (* the other direction: an assertion that is false in the language passes at compile time *)
 Definition sp81_unsound : sprogram :=
   {| sp_prog := p81;
-     sp_shadows := [ {| sh_fn := 3; sh_body := SAssert (eqz (call0 3) 20); sh_skip := false |} ] |}.
+     sp_shadows := [ {| sh_fn := 3; sh_body := SAssert (eqz (call0 3) 20); sh_skip := false |} ] ; sp_imported := [] |}.
 
 (* a PARAMETER spelled like the constant:   fn h(x) { return (g) }   (h 5) is 10 *)
 Definition p81p : program :=
@@ -35,7 +35,7 @@ Definition p81p : program :=
      pmain := 0 |}.
 Definition sp81p : sprogram :=
   {| sp_prog := p81p;
-     sp_shadows := [ {| sh_fn := 3; sh_body := SAssert (eqz (ECall 3 [ENum 5]) 10); sh_skip := false |} ] |}.
+     sp_shadows := [ {| sh_fn := 3; sh_body := SAssert (eqz (ECall 3 [ENum 5]) 10); sh_skip := false |} ] ; sp_imported := [] |}.
 
 (* block exit:  fn blk(a) { let x = 1  if (> a 0) { let x = 2  (println x) }  (println x)  return x }   (blk 1) is 1 *)
 Definition pblk : program :=
@@ -48,7 +48,7 @@ Definition pblk : program :=
      pmain := 0 |}.
 Definition spblk : sprogram :=
   {| sp_prog := pblk;
-     sp_shadows := [ {| sh_fn := 2; sh_body := SAssert (eqz (ECall 2 [ENum 1]) 1); sh_skip := false |} ] |}.
+     sp_shadows := [ {| sh_fn := 2; sh_body := SAssert (eqz (ECall 2 [ENum 1]) 1); sh_skip := false |} ] ; sp_imported := [] |}.
 
 (* a program inside names_apart (hypotheses of interp_correct are satisfiable and not vacuous): recursion, a global read by a
    callee, a loop with a let in its body, a failing and a passing test *)
@@ -67,11 +67,19 @@ Definition spgood : sprogram :=
   {| sp_prog := pgood;
      sp_shadows := [ {| sh_fn := 2; sh_body := SSeq (SLet false 9 TInt (ECall 2 [ENum 3])) (SAssert (eqz (EVar 9) 13)); sh_skip := false |};
                      {| sh_fn := 4; sh_body := SAssert (eqz (ECall 4 [ENum 3]) 25); sh_skip := false |};
-                     {| sh_fn := 0; sh_body := SAssert (EBool true); sh_skip := false |} ] |}.
+                     {| sh_fn := 0; sh_body := SAssert (EBool true); sh_skip := false |} ] ; sp_imported := [] |}.
+(* several shadow blocks for one function: EVERY block runs, in source order, each reported under the function's name; the
+   first holds the false assertion, the last passes.  Function 4 comes from an imported module: no block is asked for it *)
+Definition spmulti : sprogram :=
+  {| sp_prog := pgood;
+     sp_shadows := [ {| sh_fn := 2; sh_body := SAssert (eqz (ECall 2 [ENum 3]) 14); sh_skip := false |};
+                     {| sh_fn := 0; sh_body := SAssert (EBool true); sh_skip := false |};
+                     {| sh_fn := 2; sh_body := SAssert (eqz (ECall 2 [ENum 0]) 7); sh_skip := false |} ];
+     sp_imported := [4] |}.
 Definition spgood_failing : sprogram :=
   {| sp_prog := pgood;
      sp_shadows := [ {| sh_fn := 2; sh_body := SAssert (eqz (ECall 2 [ENum 3]) 13); sh_skip := false |};
-                     {| sh_fn := 4; sh_body := SFor 10 (ENum 0) (ENum 2) (SAssert (eqz (ECall 4 [ENum 3]) 26)); sh_skip := false |} ] |}.
+                     {| sh_fn := 4; sh_body := SFor 10 (ENum 0) (ENum 2) (SAssert (eqz (ECall 4 [ENum 3]) 26)); sh_skip := false |} ] ; sp_imported := [] |}.
 
 (* ---- arrays ----
    fn f2(v3: int) -> int { (println v3)  return v3 }
@@ -91,7 +99,7 @@ Definition sparr_good : sprogram :=
                                   (SSeq (SPrint true (EVar 7))
                                   (SSeq (SAssert (eqz (ECall 4 [EVar 7; ENum 1]) 11))
                                         (SAssert (eqz (ECall 4 [EVar 1; ENum 0]) 6))));
-                        sh_skip := false |} ] |}.
+                        sh_skip := false |} ] ; sp_imported := [] |}.
 (* the FIRST element is a call that prints: before fix 38fa340 the evaluator evaluated it twice ("8" printed twice) and the
    program was outside names_apart; now it is inside and agrees (InterpRefuted.first_element_once_agrees) *)
 Definition sparr_twice : sprogram :=
@@ -99,10 +107,10 @@ Definition sparr_twice : sprogram :=
      sp_shadows := [ {| sh_fn := 4;
                         sh_body := SSeq (SLet false 7 TArr (EArr [ECall 2 [ENum 8]; ENum 9]))
                                         (SAssert (eqz (ECall 4 [EVar 7; ENum 0]) 10));
-                        sh_skip := false |} ] |}.
+                        sh_skip := false |} ] ; sp_imported := [] |}.
 (* an index out of range inside a shadow test: nanoc itself ends there with exit status 1 *)
 Definition sparr_oob : sprogram :=
   {| sp_prog := parr;
      sp_shadows := [ {| sh_fn := 4;
                         sh_body := SSeq (SPrint true (ENum 1)) (SAssert (eqz (ECall 4 [EVar 1; ENum 2]) 0));
-                        sh_skip := false |} ] |}.
+                        sh_skip := false |} ] ; sp_imported := [] |}.
